@@ -352,6 +352,17 @@ def r4(ctx):
     fh = ctx.fn(repo.func("gunicorn.util.is_hoppish"))
     rets = [n for n in fh.cfg.stmts(ast.Return)]
     okk = len(rets) == 1 and (lambda c: c and c[1] is ast.In and tail(c[2]) == "hop_headers" and "lower" in norm(c[0]))(compare(rets[0].ast.value))
+    if not okk and isinstance(hop, (set, frozenset, tuple, list)):
+        # not that one-liner: evaluated on names -- every member of hop_headers in lower / upper / title case is hop-by-hop, other names are not
+        okk = True
+        P0 = fh.params[0]
+        samples = [(h_.lower(), True) for h_ in hop] + [(h_.upper(), True) for h_ in hop] + [(h_.title(), True) for h_ in hop] + \
+                  [(x_, False) for x_ in ("content-type", "Set-Cookie", "x-connection", "Location", "etag", "X-Upgrade-Insecure", "s", "Vary")]
+        for nm_, want_ in samples:
+            outs_ = Explorer(fh).run(fh.cfg.entry, {P0: nm_})
+            got_ = set(o.detail if o.kind == "return" else o.kind for o in outs_)
+            if got_ != {want_}:
+                okk = False
     ctx.check("C09.R4", okk, key(fh, "membership"), site(fh), "is_hoppish is not a case-insensitive membership test in hop_headers", "header.lower() in hop_headers")
     f, loop = headers_loop(ctx)
     g = f.cfg
